@@ -5,6 +5,8 @@ UNITS = [
     {'name': 'bitvec.core', 'backend': 'verus', 'tier': 'quick'},
     {'name': 'bitvec.iter', 'backend': 'verus', 'tier': 'quick'},
     {'name': 'bitvec.hinted', 'backend': 'verus', 'tier': 'quick'},
+    {'name': 'select.phase1', 'backend': 'verus', 'tier': 'quick'},
+    {'name': 'select.map', 'backend': 'verus', 'tier': 'quick', 'c12': False},
     {'name': 'rank9', 'backend': 'verus', 'tier': 'quick'},
     {'name': 'rank_small@2_9', 'backend': 'verus', 'tier': 'quick'},
     {'name': 'rank_small@1_9', 'backend': 'verus', 'tier': 'quick'},
